@@ -20,6 +20,8 @@ def check(ctx: Ctx) -> None:
     ctx.rule('C05.R3', 'column provenance: date, amount, description, field, location, source of the emitted transaction derive from the configured columns of this row and nothing else', floor=8)
     ctx.rule('C05.R4', 'sign discipline: abs under abs_amount, negation under negate_amount (abs first), applied once', floor=3)
     ctx.rule('C05.R5', 'delimiter dispatch is total and every arm skips the header when configured', floor=4)
+    ctx.rule('C05.R7', 'amount cells are normalised unconditionally within their decimal convention: thousands separators are always removed, parentheses mean negative, currency symbols dropped', floor=4)
+    ctx.rule('C05.R8', 'rows are independent: no value computed for one row is read while processing a later row (no loop-carried state besides the result list)', floor=1)
     ctx.rule('C05.R6', 'transactions are appended inside the row loop, returned in file order; empty-cell skip precedes parsing', floor=4)
     f = proj.func('parsers.parse_generic_csv')
     fl = get_flow(proj, f)
@@ -37,6 +39,10 @@ def check(ctx: Ctx) -> None:
         ctx.unknown('C05.R6', f, f'{len(appends)} transactions.append calls in the row loop')
     app = appends[0]
     app_stmt = fl.stmt_of(app)
+
+    # ---------------- R7 / R8
+    r7_amount(ctx)
+    r8_row_independence(ctx, f, fl, loop, row)
 
     # ---------------- R1
     conv = [c for c in fl.calls('parse_amount') if any(a is loop for a in ancestors(c))]
@@ -260,3 +266,81 @@ def check(ctx: Ctx) -> None:
 
 def _brief(a: Set[str]) -> List[str]:
     return sorted(x for x in a if x.startswith(('attr:', 'call:', 'param:', 'key:')))[:10]
+
+
+def r7_amount(ctx: Ctx) -> None:
+    proj = ctx.proj
+    pa = proj.func('parsers.parse_amount')
+    fl = get_flow(proj, pa)
+    cfg = fl.cfg
+    sep = pa.params[1] if len(pa.params) > 1 else 'decimal_separator'
+    reps = []
+    for st in cfg.stmts():
+        for n in (ast.walk(st) if not isinstance(st, (ast.If, ast.For, ast.While, ast.Try)) else []):
+            if isinstance(n, ast.Call) and isinstance(n.func, ast.Attribute) and n.func.attr == 'replace' and len(n.args) == 2 \
+                    and isinstance(n.args[0], ast.Constant) and isinstance(n.args[1], ast.Constant):
+                reps.append((st, n))
+    if len(reps) < 4:
+        ctx.unknown('C05.R7', pa, f'{len(reps)} separator replacements found in parse_amount')
+    euro = {('.', ''), (' ', ''), (',', '.')}
+    us = {(',', '')}
+    seen_e, seen_u = set(), set()
+    for st, n in reps:
+        g = cfg.guard_literals(st)
+        arm_e = any(t.replace(' ', '') in (f"{sep}==','",) and tr for t, tr in g)
+        arm_u = any(t.replace(' ', '') in (f"{sep}==','",) and not tr for t, tr in g)
+        extra = [(t, tr) for t, tr in g if t.replace(' ', '') not in (f"{sep}==','", f"{sep}=='.'", f"{sep}!=','")]
+        pair = (n.args[0].value, n.args[1].value)
+        if arm_e:
+            seen_e.add(pair)
+        elif arm_u:
+            seen_u.add(pair)
+        ctx.check(not extra and (arm_e or arm_u), 'C05.R7', pa, f'replace:{pair[0]!r}->{pair[1]!r}:{"comma" if arm_e else "dot"}',
+                  f'replace({pair[0]!r}, {pair[1]!r}) applies to every cell of its convention',
+                  f'replace({pair[0]!r}, {pair[1]!r}) is applied only under {extra}: cells of the same convention are read differently depending on their content '
+                  f'(e.g. "1.500" with a decimal comma configured becomes 1.5 instead of 1500)', n)
+    ctx.check(euro <= seen_e, 'C05.R7', pa, 'convention:comma', "decimal comma: '.' and ' ' removed, ',' becomes '.'", f'decimal-comma arm performs {sorted(seen_e)}')
+    ctx.check(us <= seen_u, 'C05.R7', pa, 'convention:dot', "decimal point: ',' removed", f'decimal-point arm performs {sorted(seen_u)}')
+    # parentheses -> negative, applied to the result once
+    neg = [s_ for s_ in cfg.stmts() if isinstance(s_, ast.If) and 'startswith' in src(s_.test) and 'endswith' in src(s_.test) and "'('" in src(s_.test) and "')'" in src(s_.test)]
+    rets = [r for r in cfg.stmts() if isinstance(r, ast.Return)]
+    ok = bool(neg) and len(rets) == 1 and isinstance(rets[0].value, ast.IfExp) and src(rets[0].value.body).startswith('-') and src(rets[0].value.test) == 'negative'
+    ctx.check(ok, 'C05.R7', pa, 'parentheses', '(x) is read as -x', 'parenthesised amounts are not negated exactly once')
+    fl_calls = [c for c in fl.calls('float')]
+    ctx.check(len(fl_calls) == 1 and not cfg.guard_literals(fl.stmt_of(fl_calls[0])), 'C05.R7', pa, 'float', 'the normalised text is converted with float() on every path',
+              'conversion to float is conditional or repeated')
+
+
+def r8_row_independence(ctx: Ctx, f, fl, loop, row) -> None:
+    """Loop-carried dependence: a name assigned in the row loop whose definition from a *previous* iteration can reach a read."""
+    cfg = fl.cfg
+    rd = cfg.reaching()
+    carried = {}
+    inside = {cfg.nid(s) for s in cfg.stmts() if any(a is loop for a in ancestors(s))}
+    loop_id = cfg.nid(loop)
+    from ..cfg import walk_header, defined_names
+    for nid in sorted(inside):
+        st = cfg.stmt[nid]
+        uses = {n.id for n in walk_header(st) if isinstance(n, ast.Name) and isinstance(n.ctx, ast.Load)}
+        for name in uses:
+            defs = rd.get(nid, {}).get(name, set())
+            in_defs = {d for d in defs if d in inside}
+            if not in_defs:
+                continue
+            # a definition inside the loop reaches this read; is it from the current iteration on every path?
+            # it is loop-carried iff the read is reachable from the loop head without passing any of those definitions
+            if cfg.reachable_without(loop_id, nid, set(in_defs)):
+                # reads that can only see a pre-loop value on the first iteration and an in-loop value later
+                carried.setdefault(name, (st, sorted(cfg.stmt[d].lineno for d in in_defs)))
+    # the result list itself (append-only) and plain counters are not "values of an earlier row"
+    appended = {n.func.value.id for n in ast.walk(loop) if isinstance(n, ast.Call) and isinstance(n.func, ast.Attribute) and n.func.attr in ('append', 'extend')
+                and isinstance(n.func.value, ast.Name)}
+    for name in list(carried):
+        if name in appended or name == row:
+            del carried[name]
+    if carried:
+        for name, (st, lines) in sorted(carried.items()):
+            ctx.fail('C05.R8', f, f'carried:{name}', f'`{name}` is assigned while processing one row (line(s) {lines}) and read at line {st.lineno} while processing a later row: '
+                                                     f'a malformed or unusual row changes how the rows after it are read', st)
+    else:
+        ctx.ok('C05.R8', f, 'no name assigned in the row loop is read in a later iteration', loop, 'carried:none')
